@@ -186,6 +186,22 @@ Theorem C15_session_sync :
 Proof. exact @session_sync. Qed.
 Print Assumptions C15_session_sync.
 
+(* the server adopts the COMPRESSION option of STARTUP whatever the case of its letters (strings.ToUpper, /repo 81d0138): every
+   spelling of LZ4 (8), SNAPPY (64) and NONE (16) with letters of either case selects that algorithm - "lz4" and "snappy", as the
+   specifications write them, included.  Finite domains, enumerated. *)
+Theorem C15_startup_compression_any_case :
+  forall b : list Z,
+  (In b (case_variants bytes_LZ4) -> compr_of_option b = CLz4) /\
+  (In b (case_variants bytes_SNAPPY) -> compr_of_option b = CSnappy) /\
+  (In b (case_variants bytes_NONE) -> compr_of_option b = CNone).
+Proof. exact startup_compression_any_case. Qed.
+Print Assumptions C15_startup_compression_any_case.
+Example C15_ex_startup_spellings :
+  In [108; 122; 52] (case_variants bytes_LZ4) /\ In [115; 110; 97; 112; 112; 121] (case_variants bytes_SNAPPY) /\
+  In [115; 78; 97; 80; 112; 89] (case_variants bytes_SNAPPY) /\ length (case_variants bytes_SNAPPY) = 64%nat /\
+  compr_of_option [122; 115; 116; 100] = COther.
+Proof. exact ex_startup_spellings. Qed.
+
 (* never for v2-v4 / DSE *)
 Theorem C15_session_legacy_versions :
   forall (lz4p : Segment.compressor) (e : ends compr) (xs : list (ev RawFrame)) (d : list (bool * RawFrame)) (e' : ends compr),
